@@ -629,9 +629,15 @@ impl Client {
             .writer
             .lock()
             .map_err(|_| poisoned_lock_error("client writer"))?;
-        write_message(&mut *writer, msg)?;
-        writer.flush()?;
-        Ok(())
+        let result = write_message(&mut *writer, msg).and_then(|()| Ok(writer.flush()?));
+        if result.is_err() {
+            // The frame may be partly on the wire (write timeout, stalled peer,
+            // reset): nothing more may be written behind it. Fail the
+            // connection; the reader then errors every call in flight and
+            // later calls fail at their write.
+            let _ = writer.get_ref().shutdown(Shutdown::Both);
+        }
+        result
     }
 
     fn remove_pending(&self, id: u64) {
